@@ -633,6 +633,13 @@ func rewriteAst(rng *rand.Rand, cfg gen.Config) *gen.Node {
 			x = &gen.Node{Kind: gen.KAtomic, Subs: []*gen.Node{[]*gen.Node{alt(), loop(), {Kind: gen.KSeq, Subs: []*gen.Node{loop(), loop()}}}[rng.Intn(3)]}}
 		case 7:
 			x = &gen.Node{Kind: gen.KLook, Behind: rng.Intn(2) == 0, Neg: rng.Intn(3) == 0, Subs: []*gen.Node{{Kind: gen.KSeq, Subs: []*gen.Node{loop(), single()}}}}
+			if capFirst && len(parts) > 0 && rng.Intn(2) == 0 {
+				// a lookaround whose body refers back to the first capture (right to left inside a lookbehind)
+				x.Subs[0].Subs = append(x.Subs[0].Subs, &gen.Node{Kind: gen.KRef, Group: 1, Style: 0})
+				if rng.Intn(2) == 0 {
+					x.Subs[0].Subs[0], x.Subs[0].Subs[2] = x.Subs[0].Subs[2], x.Subs[0].Subs[0]
+				}
+			}
 		default:
 			x = &gen.Node{Kind: gen.KAnchor, Anchor: []string{"b", "$", "z", "Z", "^"}[rng.Intn(5)]}
 		}
